@@ -26,8 +26,10 @@ def main():
         def run_demo():
             if demo == "demo_test.go":
                 shutil.copy(os.path.join(src, demo), os.path.join(wt, "zz_demo_test.go"))
-                tags = "-tags demo " if "go:build demo" in open(os.path.join(src, demo)).read() else ""
-                r = sh("go test -vet=off -count=1 %s-run 'TestDemo' ." % tags, wt)
+                import re as _re
+                m = _re.search(r"go:build (\w+)", open(os.path.join(src, demo)).read())
+                tags = ("-tags %s " % m.group(1)) if m else ""
+                r = sh("go test -vet=off -count=1 %s-run 'Demo' ." % tags, wt)
                 os.remove(os.path.join(wt, "zz_demo_test.go")); return r
             else:
                 os.makedirs(os.path.join(wt, "cmd", "zzdemo"), exist_ok=True)
